@@ -13,8 +13,8 @@ from checks import topogen as tg
 
 CHAINS = ['F80', 'F10', 'F120', 'F200', 'F80_F60', 'F40_U_F30', 'U_F60', 'F60_U', 'E_F80', 'F80_E', 'F80_E_F70',
           'Efull_F100_Efull', 'Etype_F100_Egain', 'Evoa_F90_Edp', 'F100lumped', 'F200att', 'F100_F100_F100', 'Ehot_F80',
-          'Egainhot_F100', 'F0.05']
-SPACE = dict({'graph': ['P2', 'P3', 'TRI'], 'chain': CHAINS, 'chain_rev': ['F80', 'F200', 'F40_U_F30', 'F10'],
+          'Egainhot_F100', 'F0.05', 'F80_Evoa', 'Evoa_F100']
+SPACE = dict({'graph': ['P2', 'P3', 'TRI'], 'chain': CHAINS, 'chain_rev': ['F80', 'F200', 'F40_U_F30', 'F10', 'F80_Evoa'],
               'eq': ['test', 'example'],
               'dpr': [[-2, 3, 0.5], [0, 0, 0.5], [0, 3, 3], [-1, 1, 0.1], [-1.2, 1.3, 0.5], [0, 0, 0]],
               'slope': [0.3, 0.5], 'loss_ref': [20, 17], 'voa_auto': [0, 1], 'si_power': [0, 3, -2],
